@@ -229,9 +229,94 @@ func concStress(o *Opts) {
 		}(t)
 	}
 	wg.Wait()
+	// readers-only phase: with no writer about, every read has one right answer (the one a single caller gets), and under
+	// -race any write a reader makes to shared state is reported, because nothing orders two holders of the read lock
+	for id := uint64(2000); id < 2000+uint64(40+rng.Intn(120)); id++ {
+		c.AddDocument(id, []float64{rng.Float64()*2 - 1, rng.Float64()*2 - 1}, []byte(fmt.Sprintf(`{"n":%d}`, id%7)))
+	}
+	type rq struct {
+		name string
+		args syzgydb.SearchArgs
+	}
+	even := func(id uint64, metadata []byte) bool { return id%2 == 0 }
+	var rqs []rq
+	for i := 0; i < 4; i++ {
+		v := []float64{rng.Float64()*2 - 1, rng.Float64()*2 - 1}
+		rqs = append(rqs, rq{"k-default", syzgydb.SearchArgs{Vector: v, K: 1 + rng.Intn(60)}}, rq{"k-default-filter", syzgydb.SearchArgs{Vector: v, K: 500, Filter: even}},
+			rq{"radius-default", syzgydb.SearchArgs{Vector: v, Radius: 0.2 + rng.Float64()}}, rq{"k-exact", syzgydb.SearchArgs{Vector: v, K: 5, Precision: "exact"}})
+	}
+	rqs = append(rqs, rq{"listing", syzgydb.SearchArgs{Offset: 3, Limit: 20}}, rq{"listing-filter", syzgydb.SearchArgs{Filter: even}})
+	// canonical form of an answer: a listing is its id sequence (the order is part of the contract); a K / radius answer is
+	// its sequence of distances plus the ids of the entries strictly closer than the last one — documents at exactly the
+	// same distance may legitimately come in any order, and which of several equidistant ones fills the last places is not fixed
+	answer := func(a syzgydb.SearchArgs) string {
+		a.Vector = append([]float64{}, a.Vector...)
+		rs := c.Search(a).Results
+		var sb strings.Builder
+		if a.K == 0 && a.Radius == 0 {
+			for _, x := range rs {
+				fmt.Fprintf(&sb, "%d ", x.ID)
+			}
+			return sb.String()
+		}
+		last := math.Inf(1)
+		if len(rs) > 0 {
+			last = rs[len(rs)-1].Distance
+		}
+		var closer []uint64
+		for _, x := range rs {
+			fmt.Fprintf(&sb, "%x ", math.Float64bits(x.Distance))
+			if x.Distance < last {
+				closer = append(closer, x.ID)
+			}
+		}
+		sort.Slice(closer, func(i, j int) bool { return closer[i] < closer[j] })
+		return sb.String() + "| " + joinU(closer)
+	}
+	alone := make([]string, len(rqs))
+	for i, q := range rqs {
+		alone[i] = answer(q.args)
+	}
+	idsAlone, countAlone := joinU(c.GetAllIDs()), c.GetDocumentCount()
+	var disagree atomic.Value
+	var wg2 sync.WaitGroup
+	for t := 0; t < nthreads; t++ {
+		wg2.Add(1)
+		go func(t int) {
+			defer wg2.Done()
+			defer func() {
+				if r := recover(); r != nil {
+					fmt.Printf("CONCRESULT panic\treaders-only phase: %v\n", r)
+					os.Exit(0)
+				}
+			}()
+			for round := 0; round < 3; round++ {
+				for i := range rqs {
+					j := (i + t*5 + round) % len(rqs)
+					if got := answer(rqs[j].args); got != alone[j] {
+						disagree.Store(fmt.Sprintf("%s search overlapping other readers returned [%s]; the same search by a single caller on the same state returned [%s]", rqs[j].name, abbreviate(got, 300), abbreviate(alone[j], 300)))
+					}
+					atomic.AddInt64(&progress, 1)
+				}
+				if got := joinU(c.GetAllIDs()); got != idsAlone {
+					disagree.Store("GetAllIDs overlapping other readers differs from the single-caller answer")
+				}
+				if got := c.GetDocumentCount(); got != countAlone {
+					disagree.Store("GetDocumentCount overlapping other readers differs from the single-caller answer")
+				}
+				c.ComputeStats()
+				c.GetDocument(2000 + uint64(t))
+			}
+		}(t)
+	}
+	wg2.Wait()
 	close(done)
 	c.Close()
 	os.Remove(path)
+	if d := disagree.Load(); d != nil {
+		fmt.Printf("CONCRESULT notlinearizable\treaders-only phase (%d goroutines, no writer): %s\n", nthreads, d.(string))
+		return
+	}
 	res := porcupine.CheckOperationsTimeout(linModel, ops, 20*time.Second)
 	switch res {
 	case porcupine.Ok:
@@ -362,7 +447,7 @@ func raceSignature(report string) string {
 func concC10(o *Opts) {
 	res := NewResult("C10", "concurrency", o.Seed, o.Tier)
 	res.Rule = "(1) deterministic schedule: ComputeStats paused (verif hook) while it holds the read lock until a writer waits; (2) stress runs built with -race: 2-8 goroutines x 14 random operations (add/overwrite, update, remove, get, ids, count, stats, exact and default search) on 4 overlapping ids, " +
-		"GOMAXPROCS 1/2/16, default and seeded random source; data-race reports, panics, a watchdog (no call completes for 8 s) and a linearizability check of the recorded history against the finite-map specification (porcupine) are outcomes; distinct = distinct run"
+		"GOMAXPROCS 1/2/16, default and seeded random source; every run ends with a readers-only phase on 40-160 documents (all goroutines issue K/radius/listing searches in default and exact precision, with and without a filter, GetAllIDs, count, stats, get: each answer must equal the single-caller answer on the same state, and -race sees any write a reader makes to shared state); data-race reports, panics, a watchdog (no call completes for 8 s) and a linearizability check of the recorded history against the finite-map specification (porcupine) are outcomes; distinct = distinct run"
 	nruns := 18
 	if o.Tier == "thorough" {
 		nruns = 150
